@@ -833,6 +833,21 @@ def extract_block_as_fn(src, loc, spec, ed):
             if not re.search(spec["header_re"], hdr):
                 raise Undecided("lost anchor: header of loop #%d of %s is `%s`" % (spec["loop"], spec["path"], hdr))
         b_open, b_close = L["open"], L["close"]
+    elif "arm_re" in spec:
+        # block-bodied match arm (or any `{` block) located by a pattern on the function's text that
+        # ends with the block's opening brace
+        body_lo = toks[brace].end
+        ms = list(re.finditer(spec["arm_re"], src.text[body_lo:toks[close].pos]))
+        if len(ms) <= spec.get("arm_index", 0) or (spec.get("arm_count") is not None and len(ms) != spec["arm_count"]):
+            raise Undecided("lost anchor: arm pattern %r of %s (found %d)" % (spec["arm_re"], spec["path"], len(ms)))
+        pos = body_lo + ms[spec.get("arm_index", 0)].end() - 1
+        b_open = None
+        for i in range(brace + 1, close):
+            if toks[i].pos == pos and toks[i].text == "{":
+                b_open = i
+        if b_open is None:
+            raise Undecided("lost anchor: arm pattern %r of %s does not end at a `{`" % (spec["arm_re"], spec["path"]))
+        b_close = src.pairs[b_open]
     else:
         # closure ordinal: k-th `|..|` closure in the function body whose body is a block
         k = -1
@@ -898,6 +913,12 @@ def extract_block_as_fn(src, loc, spec, ed):
         ed.insert(toks[b_open].end, "\n" + spec["entry"] + "\n", order=5)
     if spec.get("exit"):
         ed.insert(toks[b_close].pos, "\n" + spec["exit"] + "\n", order=-5)
+    if spec.get("before_tail"):
+        # in front of the block's tail expression (its last top-level statement, which has no `;`)
+        st = split_statements(src, b_open, b_close)
+        if not st or toks[st[-1][1] - 1].text == ";":
+            raise Undecided("lost anchor: block of %s has no tail expression" % name)
+        ed.insert(toks[st[-1][0]].pos, spec["before_tail"] + "\n", order=-3)
     lspec = spec.get("loops", {})
     for kk in lspec:
         if kk >= len(depth_loops):
@@ -930,7 +951,7 @@ def extract_block_as_fn(src, loc, spec, ed):
         for m in ms:
             ed.replace(body_lo + m.start(), body_lo + m.end(), m.expand(repl), rule="%s %s" % (why, name))
     ed.log.append("BLOCK %s: body of %s #%d of `%s` emitted as fn %s(%s); its header is not part of this unit" % (
-        name, "loop" if "loop" in spec else "closure", spec.get("loop", spec.get("closure")), spec["path"], name, spec["params"]))
+        name, "loop" if "loop" in spec else ("arm" if "arm_re" in spec else "closure"), spec.get("loop", spec.get("closure", spec.get("arm_index", 0))), spec["path"], name, spec["params"]))
     return toks[b_open].pos, toks[b_close].end
 
 
